@@ -30,8 +30,10 @@ func VerifC06Include() {
 		"networks": map[string]any{"incnet": nil},
 		"volumes":  map[string]any{"named": nil},
 		"secrets":  map[string]any{"incsec": map[string]any{"file": "./sec.txt"}},
-		"configs":  map[string]any{"inccfg": map[string]any{"file": "./cfg.txt"}},
+		// a config and a secret sourced from variables of the parent environment (resolved inside the include already)
+		"configs": map[string]any{"inccfg": map[string]any{"file": "./cfg.txt"}, "envcfg": map[string]any{"environment": "CFGVAR"}},
 	}
+	inc["secrets"].(map[string]any)["envsec"] = map[string]any{"environment": "CFGVAR"}
 	vrtYamlFile(subAbs+"/inc.yaml", inc)
 	// .env of the included project: TAG also defined by the parent (parent wins), ONLYSUB only here
 	hasDotEnv := vrtChoice("dotenv", 2) == 1
@@ -80,7 +82,7 @@ func VerifC06Include() {
 	parentMode := vrtChoice("parentDefinesTAG", 3)
 	parentTag := parentMode != 0
 	parentVal := []string{"", "parent", ""}[parentMode]
-	env := types.Mapping{}
+	env := types.Mapping{"CFGVAR": "cv"}
 	if parentTag {
 		env["TAG"] = parentVal
 	}
